@@ -829,8 +829,19 @@ func agree(phrase string) (accepted bool, err error) {
 		return false, fmt.Errorf("SeedToPrivateKey(%q): error %v, the version check of the mnemonic scheme says valid=%v", phrase, e1, want)
 	}
 	if e1 == nil {
-		if rk := walletref.MnemonicToKey(phrase); !bytes.Equal(rk, k1) {
+		rk := walletref.MnemonicToKey(phrase)
+		if !bytes.Equal(rk, k1) {
 			return false, fmt.Errorf("SeedToPrivateKey(%q) = %x, the mnemonic scheme derives %x", phrase, k1.Seed(), rk.Seed())
+		}
+		// the key handed out belongs to the caller: wiping it after use changes nothing for the next derivation
+		for i := range k1 {
+			k1[i] = 0
+		}
+		for i := range k2 {
+			k2[i] = 0xff
+		}
+		if k3, e3 := wallet.SeedToPrivateKey(phrase); e3 != nil || !bytes.Equal(k3, rk) {
+			return false, fmt.Errorf("SeedToPrivateKey(%q) after the caller wiped the keys it got before = %x, %v; the mnemonic scheme derives %x", phrase, k3, e3, rk.Seed())
 		}
 	}
 	return e1 == nil, nil
